@@ -1230,6 +1230,7 @@ func main() {
 			{Name: "keysets", Body: keysetSection, Bound: -1},
 			{Name: "rsa-odd-modulus-keysets", Body: rsaOddSection, Bound: -1},
 			{Name: "keysets-odd-io", Body: oddIOSection, Bound: oddIOBound()},
+			{Name: "keysets-large", Body: largeSection, Bound: -1},
 			{Name: "foreign-encodings", Body: foreignSection, Bound: -1},
 			{Name: "catalogue", Body: catalogueSection, Bound: -1},
 		})
